@@ -209,6 +209,9 @@ func (mgr *manager) ResetTurn() error {
 	if idx, err := mgr.orderHandler.FindTargetIndex(mgr.activeTarget); err == nil {
 		t := mgr.orderHandler.turnOrder[idx]
 		t.gauge = int64(float64(BaseGauge) * mgr.gaugeCost)
+		if t.gauge < 0 {
+			t.gauge = 0
+		}
 
 		// move the target to the end so that, in the case of a tie, it is properly at the tail end
 		// of the tied elements after the stable sort
